@@ -196,7 +196,7 @@ def onRealResult (s : SwSt) (op : SOp) (fee : Int) (rid : Nat) : SwSt Ã— List (S
           -- older record for the same inputs alive)
           if rate < m && rid > frid then
             acc ++ [("retry-rate-decreased",
-              s!"after_zero_rate_failure={if z then 1 else 0} set {members} is published at {rate} sat/kw by the retry; the failed sweep of the same set had published at {m}", if z then "known" else "")]
+              s!"after_zero_rate_failure={if z then 1 else 0} set {members} is published at {rate} sat/kw by the retry; the failed sweep of the same set had published at {m}", "")]
           else acc
         | none => acc
       ({ s with cur := (s.cur.filter fun (x : Nat Ã— Int) => x.1 != rid) ++ [(rid, max rate (curOf.getD 0))],
@@ -263,7 +263,10 @@ def onState (s : SwSt) (r : List String) : SwSt Ã— List String Ã— List (String Ã
             match prev k with
             | some i => (i.state == "PendingPublish" || i.state == "Published") && !(spent.any (Â·.1 == k))
             | none => false
-          (s.owed.filter (fun (x : Nat Ã— Int) => !hit.contains x.1)) ++ hit.map (fun k => (k, rate))
+          -- the recorded rate never goes down: a later failure reporting less (or nothing: 0)
+          -- does not release what an earlier one reported
+          let old (k : Nat) : Int := ((s.owed.find? (fun (x : Nat Ã— Int) => x.1 == k)).map (Â·.2)).getD 0
+          (s.owed.filter (fun (x : Nat Ã— Int) => !hit.contains x.1)) ++ hit.map (fun k => (k, max rate (old k)))
         else s.owed
       | _ => s.owed
     let mon1 : List (String Ã— String Ã— String) := reqs.flatMap fun q =>
